@@ -52,3 +52,24 @@ silent("C22", "device-free-wires-set-of-all-wires",
 silent("C22", "get_any-rename-local",
        [(R, "        w = self._zeroed.pop()\n        self._loaned[w] = AllocateState.ZERO if restored else AllocateState.ANY\n        return w, []\n\n    def get_wire",
             "        wire = self._zeroed.pop()\n        self._loaned[wire] = AllocateState.ZERO if restored else AllocateState.ANY\n        return wire, []\n\n    def get_wire")])
+
+# --- R-C22-private / per-handout emit
+_RDW = "pennylane/transforms/resolve_dynamic_wires.py"
+fire("C22", "manager-keeps-callers-list-when-already-a-list",
+     (_RDW, "        self._registers = {AllocateState.ZERO: list(zeroed), AllocateState.ANY: list(any_state)}",
+            "        self._registers = {\n            AllocateState.ZERO: zeroed if isinstance(zeroed, list) else list(zeroed),\n"
+            "            AllocateState.ANY: any_state if isinstance(any_state, list) else list(any_state),\n        }"),
+     "R-C22-private", "_WireManager.__init__")
+fire("C22", "manager-stores-any_state-by-reference",
+     (_RDW, "        self._registers = {AllocateState.ZERO: list(zeroed), AllocateState.ANY: list(any_state)}",
+            "        self._registers = {AllocateState.ZERO: list(zeroed), AllocateState.ANY: any_state}"),
+     "R-C22-private", "_WireManager.__init__")
+fire("C22", "reset-ops-emitted-after-the-per-wire-loop",
+     (_RDW, "                wire, ops = manager.get_wire(**op.hyperparameters)\n                yield from ops\n                wire_map[w] = wire",
+            "                wire, ops = manager.get_wire(**op.hyperparameters)\n                wire_map[w] = wire\n            yield from ops"),
+     "R-C22-map", "_new_ops")
+silent("C22", "manager-registers-built-by-comprehension-and-slice",
+       [(_RDW, "        self._registers = {AllocateState.ZERO: list(zeroed), AllocateState.ANY: list(any_state)}",
+               "        self._registers = {AllocateState.ZERO: [w for w in zeroed], AllocateState.ANY: list(any_state)[:]}")])
+silent("C22", "reset-ops-emitted-after-recording-the-wire",
+       [(_RDW, "                yield from ops\n                wire_map[w] = wire", "                wire_map[w] = wire\n                yield from ops")])
